@@ -76,11 +76,20 @@ func sizes(tier string) []int {
 }
 
 func scenarios(tier string) (out []scenario) {
-	for _, kind := range []string{"config", "leases", "filter"} {
+	for _, kind := range []string{"config", "upgrade", "leases", "filter", "filterfail"} {
 		for _, sz := range sizes(tier) {
 			for _, old := range []bool{true, false} {
 				for _, tmp := range []string{"same", "other"} {
-					if kind != "filter" && sz == 1 {
+					if kind == "upgrade" && (!old || sz > 1<<20 || (sz != 0 && sz != 4096 && sz != 1<<20)) {
+						// The upgrade needs an existing file of the previous schema;
+						// three sizes are enough for the one extra write path.
+						continue
+					}
+					if kind == "filterfail" && (!old || (sz != 4096 && sz != 1<<20)) {
+						// A failing refresh of an existing list: two sizes.
+						continue
+					}
+					if kind != "filter" && kind != "filterfail" && sz == 1 {
 						// Same file as size 0: the writer's minimum.
 						continue
 					}
@@ -149,7 +158,7 @@ func (r *runner) childArgs(dir string) []string {
 
 // calibrate asks an untraced child for the padding that gives the wanted size.
 func (r *runner) calibrate() (actual int, err error) {
-	if r.sc.Kind == "filter" {
+	if r.sc.Kind == "filter" || r.sc.Kind == "filterfail" {
 		// Analytic: see filterBody.
 		r.calib = "-"
 		return max(r.sc.Size, 2), nil
@@ -185,7 +194,7 @@ type traced struct {
 
 func (r *runner) destOf(dir string) string {
 	switch r.sc.Kind {
-	case "config":
+	case "config", "upgrade":
 		return filepath.Join(dir, "AdGuardHome.yaml")
 	case "leases":
 		return filepath.Join(dir, "data", "leases.json")
@@ -375,7 +384,7 @@ func (r *runner) record() (rec *recording, err error) {
 		}
 		rec.refKill[rec.markers[j]] = killOutcome{b: b, present: present}
 	}
-	if bytes.Equal(rec.versions[1], rec.versions[2]) || (rec.hasV0 && bytes.Equal(rec.versions[0], rec.versions[1])) {
+	if bytes.Equal(rec.versions[1], rec.versions[2]) || (rec.hasV0 && r.sc.Kind != "filterfail" && bytes.Equal(rec.versions[0], rec.versions[1])) {
 		return nil, fmt.Errorf("%s: successive versions are equal, the scenario is vacuous", r.sc.id())
 	}
 	// Paths in the model are those of the recording run.
@@ -512,7 +521,16 @@ func run(c *lib.Ctx) {
 			c.Count("recorded_window_calls", int64(rec.markers[2]-rec.markers[0]+1))
 			c.Max("max_file_bytes", int64(len(rec.versions[1])))
 			c.Distinct("file_sizes", sc.Kind+":"+strconv.Itoa(len(rec.versions[1])))
-			if sc.Size >= 2 && actual != len(rec.versions[1]) {
+			if sc.Kind == "filterfail" {
+				// Save 1 is a failed refresh: the stored list must be unchanged.
+				if !bytes.Equal(rec.versions[1], rec.versions[0]) {
+					cs := caseC{Scenario: sc, Mode: "final", Observed: "changed-by-failed-save", Allowed: "v0"}
+					c.Violation("failed-save-changed-file:"+sc.Kind, describe(sc, rec, fmt.Sprintf("a refresh whose download broke half-way changed the stored list: %d bytes before, %d bytes after", len(rec.versions[0]), len(rec.versions[1]))), cs)
+				}
+			} else if sc.Kind == "upgrade" {
+				// The upgraded file gains the keys the migration adds, and the
+				// later ordinary write keeps them: sizes are not calibrated.
+			} else if sc.Size >= 2 && actual != len(rec.versions[1]) {
 				c.EngineError(fmt.Sprintf("%s: calibrated size %d, stored %d", sc.id(), actual, len(rec.versions[1])))
 			}
 			c.Sample(map[string]any{"scenario": sc.id(), "window_calls": rec.markers[2] - rec.markers[0] + 1,
